@@ -89,13 +89,27 @@ __CPROVER_ensures(MON_ENS)
 __CPROVER_ensures(G.rel_state == state_DONE && G.ev_set_calls == 1 && G.ev_reset_calls == 0 && G.rel_ready) /* permanently done, waiters woken */
 /*@BODY set_done*/
 
+/* Two configurations of the same extracted body.  Debug (default unit): UNIFEX_ASSERT is an obligation and the stream
+ * contract "one next() at a time" is a precondition (the event is known ready at entry).  Release (unit try_reset_release,
+ * -DVF_RELEASE_CFG): UNIFEX_ASSERT compiles to nothing and next() senders of several consumers may overlap, so another
+ * consumer may already have consumed the SET: the state at the acquire is arbitrary, and "each set() is handed to at most
+ * one next()" needs try_reset() to succeed from SET only and to leave every other state alone. */
+#ifdef VF_RELEASE_CFG
+#undef VF_ASSERT
+#define VF_ASSERT(e) ((void)0)
+#define TR_REQ(self) (MON_REQ(self))
+#define TR_FALSE_POST (G.acq_state != state_SET && G.rel_state == G.acq_state && G.ev_reset_calls == 0 && G.ev_set_calls == 0 && G.rel_ready == G.acq_ready)
+#else
+#define TR_REQ(self) (MON_REQ(self) && G.known_ready)
+#define TR_FALSE_POST (G.acq_state == state_DONE && G.rel_state == state_DONE && G.ev_reset_calls == 0 && G.ev_set_calls == 0 && G.rel_ready)
+#endif
 _Bool AARE_try_reset(struct aare* self)
-__CPROVER_requires(MON_REQ(self) && G.known_ready)
+__CPROVER_requires(TR_REQ(self))
 __CPROVER_assigns(A, G)
 __CPROVER_ensures(MON_ENS)
 __CPROVER_ensures((__CPROVER_return_value != 0) == (G.acq_state == state_SET)) /* true only from SET */
 __CPROVER_ensures(__CPROVER_return_value ==> (G.rel_state == state_UNSET && G.ev_reset_calls == 1 && G.ev_set_calls == 0 && !G.rel_ready)) /* consumes the SET and resets the inner event: the next wait blocks until another set() */
-__CPROVER_ensures(!__CPROVER_return_value ==> (G.acq_state == state_DONE && G.rel_state == state_DONE && G.ev_reset_calls == 0 && G.ev_set_calls == 0 && G.rel_ready)) /* false only when permanently done; nothing changed */
+__CPROVER_ensures(!__CPROVER_return_value ==> TR_FALSE_POST) /* false: nothing changed (debug: only when permanently done; release: also when another consumer already took the SET) */
 /*@BODY try_reset*/
 
 /* ---------------- harnesses ---------------- */
@@ -106,7 +120,12 @@ static void h_init(_Bool known_ready) {
 }
 void h_set(void) { h_init(0); AARE_set(&A); VF_CANARY("after set"); if (G.acq_state == state_DONE) { VF_CANARY("set can find the event done"); } }
 void h_set_done(void) { h_init(0); AARE_set_done(&A); VF_CANARY("after set_done"); }
-void h_try_reset(void) { h_init(1); _Bool r = AARE_try_reset(&A); VF_CANARY("after try_reset"); if (r) { VF_CANARY("try_reset can consume a SET"); } else { VF_CANARY("try_reset can find the event done"); } }
+#ifdef VF_RELEASE_CFG
+void h_try_reset(void) { h_init(0); _Bool r = AARE_try_reset(&A); if (!r && G.acq_state == state_UNSET) { VF_CANARY("release configuration: try_reset can find the SET already consumed by another consumer"); }
+#else
+void h_try_reset(void) { h_init(1); _Bool r = AARE_try_reset(&A);
+#endif
+  VF_CANARY("after try_reset"); if (r) { VF_CANARY("try_reset can consume a SET"); } else { VF_CANARY("try_reset can find the event done"); } }
 
 /* ---------------- M4 lemmas over the contracts ---------------- */
 void lemma_aare_init(void) {
